@@ -154,4 +154,13 @@ theorem facts_ext_forms :
     SgrCases.emuSgrExt = SgrCases.parseSGRExt ∧
     SgrCases.parseSGRExtUnknown = [] ∧ SgrCases.emuSgrExtUnknown = [] := by decide
 
+/-- What never-panic needs of those numbers (weaker than `facts_ext_forms`): the selector `params[i+1][0]` and the index
+    `params[i+2][0]` are read only when at least 3 parameters remain, `params[i+4][0]` only when at least 5 remain, and the jumps
+    do not pass the parameters that were read. -/
+theorem ext_bounds_safe :
+    (SgrCases.parseSGRExt ++ SgrCases.emuSgrExt).all (fun r =>
+      match r.2 with
+      | [legacyMin, rgbMin, idxSkip, rgbSkip, _, _, _] => 3 ≤ legacyMin && 5 ≤ rgbMin && idxSkip + 1 ≤ legacyMin && rgbSkip + 1 ≤ rgbMin
+      | _ => false) = true := by decide
+
 end VaxisModel.Props.C18Total
